@@ -252,6 +252,21 @@ func lemmaMnemonicRoundTrip(e [NumPassphraseEntropyBytes]byte) (e2 [NumPassphras
 //@   ensures err == nil
 //@   ensures forall(0, 13, func(i int) bool { return e2[i] == e[i] }) && e2[13] == e[13]&0xFC
 
+// lemmaNewPassphraseEntropy: the entropy the server keeps is exactly what the
+// phrase it shows decodes to (its two unused bits are zero).
+func lemmaNewPassphraseEntropy() (e, e2 [NumPassphraseEntropyBytes]byte, err error) {
+	words, e, err := NewPassphraseEntropy()
+	if err != nil {
+		return e, e2, err
+	}
+	return e, PassphraseMnemonicToEntropy(words), nil
+}
+
+//@ func lemmaNewPassphraseEntropy() (e, e2 [NumPassphraseEntropyBytes]byte, err error)
+//@   props C17
+//@   noframe
+//@   ensures implies(err == nil, forall(0, NumPassphraseEntropyBytes, func(i int) bool { return e2[i] == e[i] }) && e[13]&0x03 == 0)
+
 // lemmaPhraseRoundTrip: a phrase of words from the list encodes back to itself.
 func lemmaPhraseRoundTrip(idx [NumPassphraseWords]int) (in, out [NumPassphraseWords]string, err error) {
 	for i := range in {
@@ -266,6 +281,33 @@ func lemmaPhraseRoundTrip(idx [NumPassphraseWords]int) (in, out [NumPassphraseWo
 //@   noframe
 //@   requires forall(0, NumPassphraseWords, func(i int) bool { return 0 <= idx[i] && idx[i] < 2048 })
 //@   ensures err == nil && forall(0, NumPassphraseWords, func(i int) bool { return out[i] == in[i] })
+
+// ---- connection data (C03, C04, C11, C17) -----------------------------------------
+// The stored remote key selects the rendezvous (SID) and the handshake pattern:
+// it changes only when the callback accepted the key.
+
+//@ func (s *ConnData) SetRemote(key *btcec.PublicKey) (err error)
+//@   props C17 C03 C04 C11
+//@   requires s != nil
+//@   modifies s.remoteKey, s.mu, events("*")
+//@   ensures @C17,C03 implies(err != nil, s.remoteKey == old(s.remoteKey))
+//@   ensures @C17,C04 implies(err == nil, s.remoteKey == key)
+//@   ensures implies(isnil(s.onRemoteStatic), err == nil)
+
+//@ func (s *ConnData) SetAuthData(data []byte) (err error)
+//@   props C03 C04
+//@   requires s != nil
+//@   modifies s.authData, s.mu, events("*")
+//@   ensures @C03 implies(err != nil, sameslice(s.authData, old(s.authData)))
+//@   ensures @C04 implies(err == nil, sameslice(s.authData, data))
+//@   ensures implies(isnil(s.onAuthData), err == nil)
+
+//@ func (s *ConnData) HandshakePattern() (p HandshakePattern)
+//@   props C11 C03
+//@   withinit
+//@   requires s != nil
+//@   modifies s.mu
+//@   ensures @C11 implies(s.remoteKey == nil, same(p, XXPattern)) && implies(s.remoteKey != nil, same(p, KKPattern))
 
 // ---- cipher state (C08) ---------------------------------------------------------
 
@@ -287,7 +329,7 @@ func csnext(c *cipherState, nonce0 uint64, key0, salt0 [32]byte) bool {
 //@ func (c *cipherState) Encrypt(associatedData, cipherText, plainText []byte) (out []byte)
 //@   props C08 C02 C07
 //@   modifies cryptolog()
-//@   requires csinv(c)
+//@   requires csinv(c) && cap(cipherText) == len(cipherText)
 //@   modifies c.nonce, c.secretKey, c.salt, c.cipher
 //@   ensures csinv(c) && csnext(c, old(c.nonce), old(c.secretKey), old(c.salt))
 //@   ensures len(out) == len(cipherText) + len(plainText) + macSize
@@ -300,7 +342,7 @@ func csnext(c *cipherState, nonce0 uint64, key0, salt0 [32]byte) bool {
 //@ func (c *cipherState) Decrypt(associatedData, plainText, cipherText []byte) (out []byte, err error)
 //@   props C08 C02 C07
 //@   modifies cryptolog()
-//@   requires csinv(c)
+//@   requires csinv(c) && cap(plainText) == len(plainText)
 //@   modifies c.nonce, c.secretKey, c.salt, c.cipher
 //@   ensures csinv(c) && csnext(c, old(c.nonce), old(c.secretKey), old(c.salt))
 //@   ensures nopens() == old(nopens())+1 && openkeyis(nopens()-1, old(c.secretKey)) && opennonceis(nopens()-1, old(c.nonce)) &&
@@ -423,7 +465,7 @@ func ncinv(c *NoiseGrpcConn) bool {
 //@   ensures @C15 implies(err != nil, n == 0)
 //@   ensures @C15 implies(old(len(c.nextMsg)) > 0, err == nil && nopens() == old(nopens()) && appended(old(c.nextMsg), b[:n], c.nextMsg))
 //@   ensures @C15 implies(old(len(c.nextMsg)) > 0 && len(b) > 0, n > 0)
-//@   at "return n, nil"#2 assert @C15 n <= len(b) && appended(requestBytes, b[:n], c.nextMsg)
+//@   at "return n, nil"#2 assert @C15,C02 n <= len(b) && appended(requestBytes, b[:n], c.nextMsg)
 //@   ensures @C02 implies(err == nil && old(len(c.nextMsg)) == 0, nopens() == old(nopens())+2 && openok(nopens()-2) && openok(nopens()-1))
 
 //@ func (c *NoiseGrpcConn) Write(b []byte) (n int, err error)
@@ -458,7 +500,7 @@ func nkinv(c *NoiseConn) bool {
 //@   requires nkinv(c) && !pending(c.noise)
 //@   modifies wire(), cryptolog(), c.noise.nextHeaderSend, c.noise.nextBodySend, c.noise.sendCipher.nonce, c.noise.sendCipher.secretKey,
 //@            c.noise.sendCipher.salt, c.noise.sendCipher.cipher
-//@   loop 0 invariant nkinv(c) && bytesWritten >= 0 && bytesWritten <= len(b) && bytesToWrite == len(b) && chunkSize >= 0 && chunkSize <= math.MaxUint16 &&
+//@   loop 0 invariant nkinv(c) && bytesWritten >= 0 && bytesWritten <= len(b) && chunkSize >= 0 && chunkSize <= math.MaxUint16 &&
 //@          !pending(c.noise) && len(b) > math.MaxUint16
 //@   loop 0 invariant wirelen() >= old(wirelen()) && nseals() >= old(nseals())
 //@   ensures nkinv(c)
@@ -518,7 +560,7 @@ func implOK(impl controlConn) bool {
 
 // ---- Noise handshake (C03, C04, C07, C16) --------------------------------------------
 
-//@ extern btcec.ParsePubKey nonnil
+//@ extern .ParsePubKey nonnil
 //@ extern btcec.PrivateKey nonnil
 //@ extern PrivateKey).PubKey nonnil
 //@ extern SingleKeyECDH.PubKey nonnil
@@ -581,6 +623,21 @@ func implOK(impl controlConn) bool {
 //@   ensures @C03 implies(err != nil, s.handshakeDigest == old(s.handshakeDigest) && isnil(pt))
 //@   ensures implies(err == nil, len(ciphertext) >= macSize && len(pt) == len(ciphertext)-macSize && (fresh(pt) || isnil(pt)))
 
+// split derives the two traffic keys from the final chaining key: the
+// initiator sends with the first HKDF block and receives with the second, the
+// responder the other way round (complementary, direction-separated keys).
+//@ func (b *Machine) split()
+//@   props C02 C04 C08 C07
+//@   modifies cryptolog()
+//@   requires b != nil
+//@   modifies b.sendCipher.nonce, b.sendCipher.secretKey, b.sendCipher.salt, b.sendCipher.cipher,
+//@            b.recvCipher.nonce, b.recvCipher.secretKey, b.recvCipher.salt, b.recvCipher.cipher
+//@   ensures csinv(&b.sendCipher) && csinv(&b.recvCipher) && b.sendCipher.nonce == 0 && b.recvCipher.nonce == 0
+//@   ensures @C08 b.sendCipher.salt == b.chainingKey && b.recvCipher.salt == b.chainingKey
+//@   ensures @C02,C04 implies(b.initiator, b.sendCipher.secretKey == hkdf0(b.chainingKey, 0) && b.recvCipher.secretKey == hkdf0(b.chainingKey, 1))
+//@   ensures @C02,C04 implies(!b.initiator, b.recvCipher.secretKey == hkdf0(b.chainingKey, 0) && b.sendCipher.secretKey == hkdf0(b.chainingKey, 1))
+//@   ensures nseals() == old(nseals()) && nopens() == old(nopens())
+
 // hsready: a Machine as NewBrontideMachine returns it, before the handshake.
 func hsready(b *Machine) bool {
 	return b != nil && b.cfg != nil && !isnil(b.cfg.ConnData) && !isnil(b.localStatic) && !isnil(b.ephemeralGen) &&
@@ -588,17 +645,86 @@ func hsready(b *Machine) bool {
 		is[*ConnData](b.cfg.ConnData) && as[*ConnData](b.cfg.ConnData) != nil
 }
 
+// hsfresh: no traffic keys yet.
+func hsfresh(b *Machine) bool {
+	return hsready(b) && isnil(b.sendCipher.cipher) && isnil(b.recvCipher.cipher)
+}
+
+// hskeyed: the machine holds traffic keys (split() ran).
+func hskeyed(b *Machine) bool {
+	return !isnil(b.sendCipher.cipher) || !isnil(b.recvCipher.cipher)
+}
+
+// opens3 / opens2 / opens1: the handshake performed exactly this many AEAD
+// opens since n0 and every one of them authenticated.
+func opens3(n0 int) bool {
+	return nopens() == n0+3 && openok(n0) && openok(n0+1) && openok(n0+2)
+}
+func opens2(n0 int) bool { return nopens() == n0+2 && openok(n0) && openok(n0+1) }
+func opens1(n0 int) bool { return nopens() == n0+1 && openok(n0) }
+
+func hscd(b *Machine) *ConnData { return as[*ConnData](b.cfg.ConnData) }
+
 // verifXXResponder / verifXXInitiator / verifKKResponder / verifKKInitiator: the
 // handshake with the concrete patterns (the pattern tables are package-level
-// variables: their values come from the package initialisers).
+// variables: their values come from the package initialisers, which are
+// executed symbolically - `withinit`).
 func verifXXResponder(b *Machine, rw io.ReadWriter) (err error) { return b.DoHandshake(rw) }
+func verifXXInitiator(b *Machine, rw io.ReadWriter) (err error) { return b.DoHandshake(rw) }
+func verifKKResponder(b *Machine, rw io.ReadWriter) (err error) { return b.DoHandshake(rw) }
+func verifKKInitiator(b *Machine, rw io.ReadWriter) (err error) { return b.DoHandshake(rw) }
 
 //@ func verifXXResponder(b *Machine, rw io.ReadWriter) (err error)
-//@   props C03 C07 C16
+//@   props C03 C04 C07 C16
 //@   withinit
 //@   noframe
-//@   requires hsready(b) && !isnil(rw) && !b.initiator && same(b.pattern, XXPattern) && b.version == b.maxVersion
+//@   requires hsfresh(b) && !isnil(rw) && !b.initiator && same(b.pattern, XXPattern) && b.version == b.maxVersion
 //@   ensures @C03 implies(wirelen() > old(wirelen()), nopens() >= old(nopens())+1 && openok(old(nopens())))
+//@   ensures @C03 implies(hskeyed(b) || err == nil, opens3(old(nopens())))
+//@   ensures @C03 implies(err == nil, csinv(&b.sendCipher) && csinv(&b.recvCipher))
+//@   ensures @C03 implies(hscd(b).remoteKey != old(hscd(b).remoteKey), opens3(old(nopens())) && hskeyed(b))
+//@   ensures @C03 sameslice(hscd(b).authData, old(hscd(b).authData))
+//@   ensures @C04 b.version == old(b.version)
+//@   ensures @C04 implies(err == nil && b.version >= HandshakeVersion2, hscd(b).remoteKey == b.remoteStatic)
+//@   ensures @C04 implies(b.version < HandshakeVersion2, hscd(b).remoteKey == old(hscd(b).remoteKey))
+
+//@ func verifXXInitiator(b *Machine, rw io.ReadWriter) (err error)
+//@   props C03 C04 C07 C16
+//@   withinit
+//@   noframe
+//@   requires hsfresh(b) && !isnil(rw) && b.initiator && same(b.pattern, XXPattern) && b.version == b.minVersion
+//@   ensures @C03 implies((hskeyed(b) || err == nil) && b.version == HandshakeVersion0, opens2(old(nopens())))
+//@   ensures @C03 implies((hskeyed(b) || err == nil) && b.version != HandshakeVersion0, opens3(old(nopens())))
+//@   ensures @C03 implies(err == nil, csinv(&b.sendCipher) && csinv(&b.recvCipher))
+//@   ensures @C03 implies(hscd(b).remoteKey != old(hscd(b).remoteKey) || !sameslice(hscd(b).authData, old(hscd(b).authData)), hskeyed(b))
+//@   ensures @C04 implies(err == nil, b.minVersion <= b.version && b.version <= b.maxVersion)
+//@   ensures @C04 implies(err == nil, sameslice(hscd(b).authData, b.receivedPayload))
+//@   ensures @C04 implies(err == nil && b.version >= HandshakeVersion2, hscd(b).remoteKey == b.remoteStatic)
+//@   ensures @C04 implies(b.version < HandshakeVersion2, hscd(b).remoteKey == old(hscd(b).remoteKey))
+
+//@ func verifKKResponder(b *Machine, rw io.ReadWriter) (err error)
+//@   props C03 C04 C07 C16
+//@   withinit
+//@   noframe
+//@   requires hsfresh(b) && !isnil(rw) && !b.initiator && same(b.pattern, KKPattern) && b.version == b.maxVersion && b.remoteStatic != nil
+//@   ensures @C03 implies(wirelen() > old(wirelen()), nopens() >= old(nopens())+1 && openok(old(nopens())))
+//@   ensures @C03 implies(hskeyed(b) || err == nil, opens1(old(nopens())))
+//@   ensures @C03 implies(err == nil, csinv(&b.sendCipher) && csinv(&b.recvCipher))
+//@   ensures @C03 implies(hscd(b).remoteKey != old(hscd(b).remoteKey), opens1(old(nopens())) && hskeyed(b))
+//@   ensures @C03 sameslice(hscd(b).authData, old(hscd(b).authData))
+//@   ensures @C04 b.version == old(b.version) && b.remoteStatic == old(b.remoteStatic)
+
+//@ func verifKKInitiator(b *Machine, rw io.ReadWriter) (err error)
+//@   props C03 C04 C07 C16
+//@   withinit
+//@   noframe
+//@   requires hsfresh(b) && !isnil(rw) && b.initiator && same(b.pattern, KKPattern) && b.version == b.minVersion && b.remoteStatic != nil
+//@   requires b.minVersion >= HandshakeVersion2
+//@   ensures @C03 implies(hskeyed(b) || err == nil, opens2(old(nopens())))
+//@   ensures @C03 implies(err == nil, csinv(&b.sendCipher) && csinv(&b.recvCipher))
+//@   ensures @C03 implies(hscd(b).remoteKey != old(hscd(b).remoteKey) || !sameslice(hscd(b).authData, old(hscd(b).authData)), hskeyed(b))
+//@   ensures @C04 implies(err == nil, b.minVersion <= b.version && b.version <= b.maxVersion && b.remoteStatic == old(b.remoteStatic))
+//@   ensures @C04 implies(err == nil, sameslice(hscd(b).authData, b.receivedPayload))
 
 // ---- record framing (C16) -----------------------------------------------------
 
